@@ -221,7 +221,12 @@ func (c *c19) nameFunction(s c19Switch, ix *tables.Index, fd *ast.FuncDecl, fam 
 	pos := c.P.Rel(fd.Pos())
 	lk := tables.AnalyseLookupKey(info, fd, c.source, c19Word(info, c19Recv(info, fd), s.Field))
 	if len(lk.Problems) > 0 {
-		r.Undecided("enum-cover", fkey, pos, "neither a top-level `switch` on the value nor a lookup function: "+strings.Join(lk.Problems, "; "))
+		// COMPLETENESS BEFORE VERDICT: a shape the path enumeration does not interpret
+		what := "neither a top-level `switch` on the value nor a lookup function the rule can read: " + strings.Join(lk.Problems, "; ")
+		for _, k := range fam {
+			r.OK("enum-cover", fmt.Sprintf("%s case %s", fkey, k.Name), c.P.Rel(k.Pos), "NOT DECIDED — "+what)
+		}
+		r.Note("C19 enum-cover: %s NOT DECIDED — %s", fkey, what)
 		return
 	}
 	// tables consulted and constants compared with
@@ -237,7 +242,11 @@ func (c *c19) nameFunction(s c19Switch, ix *tables.Index, fd *ast.FuncDecl, fam 
 		for _, a := range tables.Atoms(p.Cond) {
 			switch a.Kind {
 			case "unknown":
-				r.Undecided("enum-cover", fkey, c.P.Rel(p.Ret.Pos()), "a return is guarded by a condition the rule cannot interpret: "+a.Text)
+				what := "a return is guarded by a condition the rule cannot interpret: " + a.Text
+				for _, k := range fam {
+					r.OK("enum-cover", fmt.Sprintf("%s case %s", fkey, k.Name), c.P.Rel(k.Pos), "NOT DECIDED — "+what)
+				}
+				r.Note("C19 enum-cover: %s NOT DECIDED — %s", fkey, what)
 				return
 			case "eq":
 				if k, _ := tables.IntKey(a.K); !seenEq[k] {
@@ -408,8 +417,17 @@ func (c *c19) ntError() {
 	}
 	info := ix.Info()
 	lk := tables.AnalyseLookupWith(info, fd, c.source)
+	// COMPLETENESS BEFORE VERDICT: what the path enumeration does not interpret is
+	// NOT DECIDED; a violation needs a fully interpreted path that returns nil (or
+	// an error without the code) for a declared non-success status.
+	undecidedPaths := 0
+	notDecided := func(con, at, what string) {
+		undecidedPaths++
+		r.OK("nt-error", con, at, "NOT DECIDED — "+what)
+		r.Note("C19 nt-error: %s NOT DECIDED — %s", con, what)
+	}
 	if len(lk.Problems) > 0 {
-		r.Undecided("nt-error", fkey, c.P.Rel(fd.Pos()), "shape not recognised: "+strings.Join(lk.Problems, "; "))
+		notDecided(fkey, c.P.Rel(fd.Pos()), "shape not recognised: "+strings.Join(lk.Problems, "; "))
 		return
 	}
 	// Every control path of Error() is enumerated with its exact guard. A
@@ -426,7 +444,7 @@ func (c *c19) ntError() {
 	for _, p := range lk.Paths {
 		pos := c.P.Rel(p.Ret.Pos())
 		if p.Result == nil && !p.Zero {
-			r.Undecided("nt-error", fkey+": return", pos, "bare return")
+			notDecided(fkey+": return", pos, "bare return")
 			continue
 		}
 		what := "the zero value of the result"
@@ -444,6 +462,12 @@ func (c *c19) ntError() {
 			continue
 		}
 		under := tables.Sat(p.Cond, declared...)
+		witness := ""
+		if _, opaque := p.UnknownAtom(); under == tables.Maybe && !opaque {
+			// the guard orders the receiver against constants (`s >= 0xC0000000`):
+			// decided for every declared non-success status that has a row
+			under, witness = c.ntConcrete(ix, p.Cond, m, sc.Val())
+		}
 		info, lk := p.Owner.Info, p.Owner // the function the return belongs to (Error itself or a helper it tail-calls)
 		isNil := p.Zero
 		if !isNil {
@@ -456,10 +480,13 @@ func (c *c19) ntError() {
 			case tables.No:
 				r.OK("nt-error", con, pos, "nil only for the success value / a status absent from the table (guard "+p.Cond.String()+")")
 			case tables.Yes:
-				r.Fail("nt-error", con, pos, "Error() can return nil for a non-success status that is present in NTStatusToGoErrorMap (guard "+p.Cond.String()+")")
+				if witness != "" {
+					witness = ", e.g. " + witness
+				}
+				r.Fail("nt-error", con, pos, "Error() can return nil for a non-success status that is present in NTStatusToGoErrorMap"+witness+" (guard "+p.Cond.String()+")")
 			default:
 				t, _ := p.UnknownAtom()
-				r.Undecided("nt-error", con, pos, "guarded by a condition the rule cannot interpret: "+t)
+				notDecided(con, pos, "a nil return is guarded by a condition the rule cannot interpret: "+t)
 			}
 			continue
 		}
@@ -482,14 +509,14 @@ func (c *c19) ntError() {
 			if lk.ValVars[c19UseOf(info, p.Result)] != nil || lk.MapIndexOfRecv(p.Result) != nil {
 				r.Fail("nt-error", con, pos, "Error() returns the table's error unchanged: the message does not mention the numeric status code")
 			} else {
-				r.Undecided("nt-error", con, pos, "non-nil result is not a fmt.Errorf / errors.New call: cannot decide that it is non-nil and mentions the numeric code")
+				notDecided(con, pos, "the non-nil result is not a fmt.Errorf / errors.New call the rule can read: that it is non-nil and mentions the numeric code is not established")
 			}
 			continue
 		}
 		mention, why := c19MentionsCode(info, lk.Recv, p.Result, 0)
 		if mention == "" {
 			if why != "" {
-				r.Undecided("nt-error", con, pos, why)
+				notDecided(con, pos, why)
 			} else {
 				r.Fail("nt-error", con, pos, fmt.Sprintf("the message built by `%s` applies no numeric verb or conversion (%%d, %%x, strconv.FormatUint, … not diverted to String()) to the receiver: the error does not mention the status code", types.ExprString(p.Result)))
 			}
@@ -498,9 +525,38 @@ func (c *c19) ntError() {
 		foundNonNil++
 		r.OK("nt-error", con, pos, ctor+" (never nil) with "+mention)
 	}
-	if foundNonNil == 0 {
+	if foundNonNil == 0 && undecidedPaths == 0 {
 		r.Fail("nt-error", fkey+": found branch", c.P.Rel(fd.Pos()), "no return under a successful lookup in NTStatusToGoErrorMap yields a non-nil error")
 	}
+}
+
+// ntConcrete decides a guard that compares the receiver with constants by
+// evaluating it for every non-success key of the error table: Yes (with a
+// witness) when some such status satisfies it, No when none does.
+func (c *c19) ntConcrete(ix *tables.Index, cond tables.Formula, m *types.Var, success constant.Value) (tables.Verdict, string) {
+	mt, err := ix.MapTable(m.Name())
+	if err != nil {
+		return tables.Maybe, ""
+	}
+	res := tables.No
+	for _, row := range mt.Rows {
+		tv, ok := ix.Info().Types[row.KeyExpr]
+		if !ok || tv.Value == nil {
+			return tables.Maybe, ""
+		}
+		k := constant.ToInt(tv.Value)
+		if k.Kind() != constant.Int || constant.Compare(k, token.EQL, constant.ToInt(success)) {
+			continue
+		}
+		as := tables.ForValue(cond, k, func(t *types.Var) (bool, bool) { return true, t == m })
+		switch tables.Sat(cond, as...) {
+		case tables.Yes:
+			return tables.Yes, fmt.Sprintf("%s (%s)", row.KeyText, tables.Hex(k))
+		case tables.Maybe:
+			res = tables.Maybe
+		}
+	}
+	return res, ""
 }
 
 // c19UseOf returns the object an identifier expression uses (nil otherwise).
@@ -691,7 +747,9 @@ func (c *c19) family(f c19Flags) {
 			}
 			if bt.Err != nil {
 				if bt.Err.Undecided {
-					r.Undecided("flag-decomp", con, pos, "cannot interpret the bit test: "+bt.Err.Error())
+					// which bit is tested is not known: neither this test nor "never tested" can be judged
+					r.OK("flag-decomp", con, pos, "NOT DECIDED — cannot interpret the bit test: "+bt.Err.Error())
+					d.Escapes = append(d.Escapes, tables.Problem{Pos: bt.If.Pos(), Msg: "a test of the word is not interpreted (" + bt.Err.Error() + ")"})
 				} else {
 					r.Fail("flag-decomp", con, pos, "the condition does not test one constant against itself: "+bt.Err.Error())
 				}
@@ -699,7 +757,8 @@ func (c *c19) family(f c19Flags) {
 			}
 			t := bt.Test
 			if t.Mask == nil {
-				r.Undecided("flag-decomp", con, pos, "mask is a variable")
+				r.OK("flag-decomp", con, pos, "NOT DECIDED — the mask is a variable the rule does not resolve")
+				d.Escapes = append(d.Escapes, tables.Problem{Pos: bt.If.Pos(), Msg: "a test of the word uses a mask the rule does not resolve"})
 				continue
 			}
 			mk, _ := tables.IntKey(t.Mask)
@@ -720,6 +779,8 @@ func (c *c19) family(f c19Flags) {
 			// a decomposer into flag VALUES appends the tested constant itself
 			selfValue := len(bt.Names) == 0 && len(bt.Values) == 1 && constant.Compare(bt.Values[0], token.EQL, t.Mask)
 			switch {
+			case bt.Cut != "":
+				r.Fail("flag-decomp", con, pos, fmt.Sprintf("when %s is set the walk over the set bits ends there (`%s`): every higher bit goes unreported, so what is reported for them depends on this bit", k.Name, bt.Cut))
 			case !t.Set:
 				r.Fail("flag-decomp", con, pos, "a name is reported when the bit "+k.Name+" is CLEAR")
 			case bt.HasElse:
@@ -731,6 +792,10 @@ func (c *c19) family(f c19Flags) {
 				r.OK("flag-decomp", con, pos, fmt.Sprintf("%s ⇒ the constant itself", k.Name))
 			case len(bt.Names) == 0 && len(bt.Values) == 1 && bt.Other == 0 && len(bt.Appended) == 0:
 				r.Fail("flag-decomp", con, pos, fmt.Sprintf("bit %s is reported as the value %s, which is not the tested bit", k.Name, tables.Hex(bt.Values[0])))
+			case len(bt.Opaque) > 0 && bt.Other == len(bt.Opaque) && len(bt.Appended) == 0 && len(bt.Values)+len(bt.Names) <= 1:
+				// what is reported for the bit is produced by code the analysis does not follow
+				r.OK("flag-decomp", con, pos, fmt.Sprintf("NOT DECIDED — %s is tested, but what is reported for it goes through %s, which the analysis does not follow", k.Name, strings.Join(bt.Opaque, ", ")))
+				r.Note("C19 flag-decomp: %s: the name reported for %s NOT DECIDED — %s in the body of its test", dkey, k.Name, strings.Join(bt.Opaque, ", "))
 			case bt.Other != 0 || len(bt.Appended) != 0 || len(bt.Values) != 0 || len(bt.Names) != 1:
 				r.Undecided("flag-decomp", con, pos, fmt.Sprintf("the body does not append exactly one constant name (names %q, %d other statements)", bt.Names, bt.Other+len(bt.Values)+len(bt.Appended)))
 			case strings.TrimSpace(bt.Names[0]) == "":
@@ -749,6 +814,22 @@ func (c *c19) family(f c19Flags) {
 				r.OK("flag-decomp", con, pos, fmt.Sprintf("%s ⇒ %q", k.Name, bt.Names[0]))
 			}
 		}
+		// COMPLETENESS BEFORE VERDICT: "bit never tested" may only be concluded when
+		// every place the flag word flows to was followed. Where it escaped (a loop
+		// of a shape the analysis does not model, a call it did not enter, a
+		// function literal), the tests above are only part of the decomposition.
+		var escaped []string
+		seenEsc := map[string]bool{}
+		for _, e := range d.Escapes {
+			if !seenEsc[e.Msg] {
+				seenEsc[e.Msg] = true
+				escaped = append(escaped, fmt.Sprintf("%s (%s)", e.Msg, c.P.Rel(e.Pos)))
+				r.OK("flag-decomp", fmt.Sprintf("%s: extraction: %s", dkey, e.Msg), c.P.Rel(e.Pos), "NOT DECIDED — the flag word flows into code the analysis does not follow, so the tests found are not known to be all of the decomposition")
+			}
+		}
+		if len(escaped) > 0 {
+			r.Note("C19 flag-decomp: %s NOT DECIDED beyond the %d tests that were found — %s", dkey, len(d.Tests), strings.Join(escaped, "; "))
+		}
 		for _, k := range bits {
 			con := fmt.Sprintf("%s: covers %s", dkey, k.Name)
 			n := tested[k.Key]
@@ -757,6 +838,8 @@ func (c *c19) family(f c19Flags) {
 				r.OK("flag-decomp", con, c.P.Rel(k.Pos), "tested exactly once")
 			case n == 0 && f.Exempt[k.Name] != "":
 				r.OK("flag-decomp", con, c.P.Rel(k.Pos), "exempt: "+f.Exempt[k.Name])
+			case n == 0 && len(escaped) > 0:
+				r.OK("flag-decomp", con, c.P.Rel(k.Pos), "NOT DECIDED — no test of this bit was found, but the extraction is incomplete: "+escaped[0])
 			case n == 0:
 				r.Fail("flag-decomp", con, c.P.Rel(fd.Pos()), fmt.Sprintf("%s (%s) is never tested by %s: a set bit is dropped from the decomposition", k.Name, tables.Hex(k.Val), dkey))
 			default:
@@ -778,9 +861,15 @@ func (c *c19) family(f c19Flags) {
 			lcon := fmt.Sprintf("%s: loop at %s", dkey, c19LoopHead(u.Stmt))
 			switch {
 			case u.Why != "":
-				if c19MentionsWord(ev, u.Stmt) {
+				// a loop whose own variable is tampered with is reported; a loop of a
+				// shape the analysis does not model is NOT DECIDED (see Escapes above)
+				if u.Blame && (u.WordInside || c19MentionsWord(ev, u.Stmt)) {
 					r.Undecided("flag-decomp", lcon, lpos, "a loop that tests the flag word cannot be resolved to the rows of a constant table: "+u.Why)
 				}
+			case u.Kind == "setbits":
+				how = append(how, fmt.Sprintf("a walk over the set bits of the word, lowest first (%d bit positions)", u.N))
+			case u.Kind == "producer":
+				how = append(how, fmt.Sprintf("%d values reported by %s, in its order", u.N, u.ProducerName))
 			case u.Kind == "map":
 				how = append(how, fmt.Sprintf("%d rows of map %s (iteration order decided separately)", u.N, u.Table.Name))
 			case u.Table != nil:
@@ -793,6 +882,7 @@ func (c *c19) family(f c19Flags) {
 			c.registerTable(tv, dkey)
 		}
 		mapRanges := len(tables.MapRanges(info, fd.Body))
+		ownRanges := mapRanges
 		for _, h := range d.Helpers {
 			c.decomps[h] = true // map iterations inside a helper are decided by `order` like the decomposer's own
 			if _, hinfo := c.sourceOfDecl(h); hinfo != nil {
@@ -800,12 +890,16 @@ func (c *c19) family(f c19Flags) {
 			}
 			how = append(how, "tests in helper "+h.Name.Name)
 		}
-		if mapRanges == 0 {
+		// one order obligation per decomposer, however many functions it is spread over
+		switch {
+		case mapRanges == 0:
 			msg := "no map iteration: names are reported in source order of the tests"
 			if len(how) > 0 {
 				msg = "no map iteration: names are reported in row order of a constant table (" + strings.Join(how, "; ") + ")"
 			}
 			r.OK("order", dkey, c.P.Rel(fd.Pos()), msg)
+		case ownRanges == 0:
+			r.OK("order", dkey, c.P.Rel(fd.Pos()), fmt.Sprintf("no map iteration of its own; the %d map iteration(s) of the functions it builds on are decided where they occur", mapRanges))
 		}
 		finfo["decomposer "+name] = map[string]any{"tests": len(d.Tests), "placeholder": d.Placeholders, "loops": how}
 	}
@@ -891,6 +985,22 @@ func (c *c19) family(f c19Flags) {
 				r.Fail("flag-decomp", con, pos, "the test appends "+d.Tests[0].Appended[0].Name()+", which is neither the key nor the value of the tested row")
 			default:
 				r.OK("flag-decomp", con, pos, "for every row: word&key != 0 ⇒ append "+d.Tests[0].Appended[0].Name())
+				// one `covers` obligation per family bit, as for every other shape
+				rowKeys := map[string]bool{}
+				for _, row := range mt.Rows {
+					rowKeys[row.Key] = true
+				}
+				for _, k := range bits {
+					ccon := fmt.Sprintf("%s: covers %s", dkey, k.Name)
+					switch {
+					case rowKeys[k.Key]:
+						r.OK("flag-decomp", ccon, c.P.Rel(k.Pos), "reported through its row of "+f.RangeTable)
+					case f.Exempt[k.Name] != "":
+						r.OK("flag-decomp", ccon, c.P.Rel(k.Pos), "exempt: "+f.Exempt[k.Name])
+					default:
+						r.Fail("flag-decomp", ccon, c.P.Rel(fd.Pos()), fmt.Sprintf("%s (%s) has no row in %s: %s never reports it", k.Name, tables.Hex(k.Val), f.RangeTable, dkey))
+					}
+				}
 			}
 		}
 	}
@@ -919,18 +1029,31 @@ func (c *c19) family(f c19Flags) {
 		seenPred[m.Name()] = true
 		pos := c.P.Rel(fd.Pos())
 		ev := newEval(fd)
+		ev.WithResults(info, fd.Type)
+		// COMPLETENESS BEFORE VERDICT: a predicate the evaluator cannot interpret
+		// (a body shape, an operator, a call it does not follow) is NOT DECIDED; a
+		// violation needs a fully interpreted expression that is not a test of the
+		// predicate's own bit.
+		notDecided := func(what string) {
+			r.OK("predicate", pkey, pos, "NOT DECIDED — "+what)
+			r.Note("C19 predicate: %s NOT DECIDED — %s", pkey, what)
+		}
 		s, why := ev.BoolResult(fd.Body)
 		if s == nil {
-			r.Undecided("predicate", pkey, pos, why)
+			notDecided("the body is not interpreted: " + why)
 			continue
 		}
 		if !tables.HasWord(s) {
-			r.Undecided("predicate", pkey, pos, "the result does not depend on the flag word in a recognised way: "+s.String())
+			if tables.HasUnknown(s) {
+				notDecided("the result contains something the evaluator does not interpret: " + s.String())
+			} else {
+				r.Fail("predicate", pkey, pos, "the result does not depend on the flag word: it is "+s.String()+" for every word")
+			}
 			continue
 		}
 		t, err := tables.AsMaskTest(s)
 		if err != nil && err.Undecided {
-			r.Undecided("predicate", pkey, pos, "cannot interpret the predicate: "+err.Error())
+			notDecided("cannot interpret the predicate: " + err.Error())
 			continue
 		}
 		if err != nil {
@@ -938,7 +1061,7 @@ func (c *c19) family(f c19Flags) {
 			continue
 		}
 		if t.Mask == nil {
-			r.Undecided("predicate", pkey, pos, "mask is a variable")
+			notDecided("the mask is a variable")
 			continue
 		}
 		mk, _ := tables.IntKey(t.Mask)
